@@ -183,15 +183,18 @@ func VerifSend_Accounting() {
 	// discarded after an Error the same subscriber received).
 	for r, sb := range subs {
 		type acc struct{ queued, outcome, closed int }
+		// topic numbers are per message queue and start again at 0 when a
+		// successor queue is created for the peer: an attachment is a topic
+		// from its first event to its close
 		per := map[messagequeue.Topic]*acc{}
-		var order []messagequeue.Topic
+		var order []*acc
 		sawError := false
 		for _, n := range sb.Log {
 			a := per[n.Topic]
-			if a == nil {
+			if a == nil || (a.closed == 1 && a.outcome == 1 && !n.Close) {
 				a = &acc{}
 				per[n.Topic] = a
-				order = append(order, n.Topic)
+				order = append(order, a)
 			}
 			switch {
 			case n.Close:
@@ -208,8 +211,7 @@ func VerifSend_Accounting() {
 				}
 			}
 		}
-		for _, t := range order {
-			a := per[t]
+		for _, a := range order {
 			verifrt.Assert(a.outcome == 1, "C16 a queued message was not reported sent or failed exactly once")
 			verifrt.Assert(a.closed == 1, "C16 subscription not closed exactly once")
 			verifrt.Assert(a.queued <= 1, "C16 queued reported twice")
